@@ -75,8 +75,9 @@ def _rbw(stmts, defined):
                 reads |= (_loads(s.iter) - defined)
                 inner = set(defined) | _stores(s.target)
             r1, _ = _rbw(s.body, inner)
-            # a nested loop may run zero times, and its later iterations read what earlier ones wrote
-            reads |= r1 | ((_loads(s) & _stores(s)) - defined)
+            # a nested loop may run zero times (nothing becomes defined); its later iterations start with at
+            # least what the first one started with, so they read-before-write no more than the first
+            reads |= r1
             r2, _ = _rbw(s.orelse, defined)
             reads |= r2
         elif isinstance(s, ast.Try):
@@ -190,7 +191,14 @@ def exec_while(I, st, frame):
     base = "%s/%s" % (frame.fn.fullname, ordn)
     tags = spec.props
     inv = plain_function(spec.invariant)
-    oblige_clause(I, frame, inv, clause_env(I, frame), base + "/invariant-established", "invariant", tags)
+    yf = frame
+    while yf is not None and yf.yielded is None:
+        yf = yf.parent
+    ymark = getattr(frame, "iter_ystart", 0)
+    entry_env = clause_env(I, frame, {"yielded": ListV(yf.yielded[ymark:]) if yf is not None else ListV([])})
+    oblige_clause(I, frame, inv, entry_env, base + "/invariant-established", "invariant", tags)
+    for cl in spec.entry:
+        oblige_clause(I, frame, plain_function(cl.fn), entry_env, base + "/entry:" + cl.name, "step", cl.props or tags)
     pre = Namespace(snapshot(dict(frame.locals)))
     S = Factory(ctx, I)
     L = Locals(frame)
@@ -203,13 +211,23 @@ def exec_while(I, st, frame):
     m0 = call_spec(I, dec, clause_env(I, frame)) if dec is not None else None
     c = I.eval(st.test, frame)
     if I.is_true(c):
+        ystart = len(yf.yielded) if yf is not None else 0
+        saved_mark = getattr(frame, "iter_ystart", 0)
+        frame.iter_ystart = ystart
+        broke = False
         try:
             I.exec_block(st.body, frame)
         except BreakSig:
-            return
+            broke = True
         except ContinueSig:
             pass
-        env = clause_env(I, frame, {"pre": head})
+        finally:
+            frame.iter_ystart = saved_mark
+        env = clause_env(I, frame, {"pre": head, "yielded": ListV(yf.yielded[ystart:]) if yf is not None else ListV([])})
+        if broke:
+            for cl in spec.step:
+                oblige_clause(I, frame, plain_function(cl.fn), env, base + "/step:" + cl.name, "step", cl.props or tags)
+            return
         oblige_clause(I, frame, inv, env, base + "/invariant-preserved", "invariant", tags)
         if dec is not None:
             m1 = call_spec(I, dec, env)
